@@ -33,8 +33,11 @@ class Comp:
 
 
 class UComp(Comp):
-    """Unhashable component."""
+    """Unhashable component that is also false in a boolean context (the classic one: an empty dict subclass used as a settings utility)."""
     __hash__ = None
+
+    def __len__(self):
+        return 0
 
 
 class World:
@@ -366,7 +369,7 @@ HARNESSES = [
             tiers=dict(quick=dict(budget_s=150, parts=16, params=dict(kind='full', L=2)),
                        thorough=dict(budget_s=3000, parts=16, params=dict(kind='full', L=2))),
             encoded=_ENC,
-            bounds='every history of <=2 calls from 82: registerUtility (hashable a, a2 == a, unhashable u, u2 == u; provided I / ISub(I); names '
+            bounds='every history of <=2 calls from 82: registerUtility (hashable a, a2 == a, unhashable and falsy u, u2 == u; provided I / ISub(I); names '
                    '"", "n"; info "", "x"; factory form), unregisterUtility (None / a / a2 / u), registerAdapter / unregisterAdapter (f, f2 == f, g), '
                    'subscription adapters and handlers (register f / f2 / g, unregister None / f / g), re-__init__',
             outside='histories longer than the bound (see the two deeper harnesses); named subscribers (unsupported by the API)', oracle=_OR,
@@ -375,7 +378,7 @@ HARNESSES = [
             tiers=dict(quick=dict(budget_s=150, parts=16, params=dict(kind='util', L=3)),
                        thorough=dict(budget_s=3000, parts=16, params=dict(kind='util', L=4))),
             encoded=_ENC,
-            bounds='utilities only: every history of <=3 (thorough 4) calls from 28 (register a / a2 / u / u2 (== u, unhashable) under I / ISub and "" / "n"; unregister None / a / u): '
+            bounds='utilities only: every history of <=3 (thorough 4) calls from 28 (register a / a2 / u / u2 (== u, unhashable and falsy) under I / ISub and "" / "n"; unregister None / a / u): '
                    'same component under several names, replaced, then removed; the per-(provided, component) counting and its switch to the '
                    'non-hashing strategy', oracle=_OR, stubs=['notify recorder']),
     Harness('e_adapters_deep', make_e, kind='E', impls=('py',),
